@@ -15,7 +15,7 @@ CLI_TIMEOUT_S = int(os.environ.get("PYVC_CLI_TIMEOUT_S", "8"))
 # the budget of a query is counted in z3 resource units (deterministic: a verdict does not depend on how busy the
 # machine is); ~1.2e6 units per second on the reference machine.  The wall-clock timeout is a safety net only.
 RLIMIT_PER_MS = int(os.environ.get("PYVC_RLIMIT_PER_MS", "1200"))
-WALL_FACTOR = 5
+WALL_FACTOR = 10
 
 
 def delambda(fmls):
